@@ -20,9 +20,11 @@
   parse_enum.rs does (accumulator starts at 0, `accum + 1`, alternatives advance it) while the write side of an enum
   without catch-all is `*self as repr`, i.e. rustc's numbering (`rustDiscs`). They disagree; see Props/C19.lean.
 
-  Import-free apart from Basic (the driver `drv_c19` links against this file).
+  Imports only Basic and Generated/WireMacro (the macro's tables, regenerated from its source on every run); the driver
+  `drv_c19` links against this file.
 -/
 import EcModel.Basic
+import EcModel.Generated.WireMacro
 
 namespace Ec.Wire
 open Ec
@@ -220,14 +222,16 @@ inductive TyTok where
   | u8 | i8 | u16 | i16 | u32 | i32 | u64 | i64 | f32 | f64 | u128 | i128 | bool | other
   deriving Repr, DecidableEq
 
-/-- parse_struct.rs:104-111 (note: `f32` gets 8 bytes there). -/
-def autoWidth : TyTok → Option Nat
-  | .u8 | .i8 => some 8
-  | .u16 | .i16 => some 16
-  | .u32 | .i32 => some 32
-  | .u64 | .i64 | .f32 | .f64 => some 64
-  | .u128 | .i128 => some 128
-  | .bool | .other => none
+/-- The identifier the macro compares against. -/
+def TyTok.name : TyTok → String
+  | .u8 => "u8" | .i8 => "i8" | .u16 => "u16" | .i16 => "i16" | .u32 => "u32" | .i32 => "i32"
+  | .u64 => "u64" | .i64 => "i64" | .f32 => "f32" | .f64 => "f64" | .u128 => "u128" | .i128 => "i128"
+  | .bool => "bool" | .other => ""
+
+/-- parse_struct.rs:104-113: `bytes.map(|bytes| bytes * 8)` over the table keyed by the type's first token; the table is
+    re-read from the macro source on every run (note: `f32` gets 8 bytes there). -/
+def autoWidth (t : TyTok) : Option Nat :=
+  (Gen.WireMacro.autoWidthBytes.lookup t.name).map (· * 8)
 
 def TyTok.isU8OrBool : TyTok → Bool
   | .u8 | .bool => true
@@ -285,43 +289,51 @@ def FieldMeta.bitsLen (f : FieldMeta) : Nat := f.bitEnd - f.bitStart
 /-- `field.bytes.len()`. -/
 def FieldMeta.bytesLen (f : FieldMeta) : Nat := f.byteEnd - f.byteStart
 
-/-- The `for field in fields` loop of parse_struct (parse_struct.rs:83-197); state = `total_field_width`. -/
+/-- `pre_skip`: `usize_attr("pre_skip")?.or(usize_attr("pre_skip_bytes")?.map(|b| b * 8)).filter(|_| !skip)`, 0 if absent. -/
+def FieldDecl.preSkipBits (d : FieldDecl) : Nat :=
+  ((d.preSkip.orElse fun _ => d.preSkipBytes.map (· * 8)).filter fun _ => !d.skip).getD 0
+
+/-- `post_skip`, likewise. -/
+def FieldDecl.postSkipBits (d : FieldDecl) : Nat :=
+  ((d.postSkip.orElse fun _ => d.postSkipBytes.map (· * 8)).filter fun _ => !d.skip).getD 0
+
+/-- parse_struct.rs:131-164: the `FieldMeta` of a field whose bits are `bit_start..bit_end`. -/
+def mkFieldMeta (d : FieldDecl) (bitStart bitEnd : Nat) : FieldMeta :=
+  { ty := d.ty, codec := d.codec, bitStart := bitStart, bitEnd := bitEnd, byteStart := bitStart / 8,
+    byteEnd := (bitEnd + 7) / 8, bitOffset := bitStart % 8, skip := d.skip }
+
+/-- One iteration of the `for field in fields` loop of parse_struct (parse_struct.rs:83-197):
+    `total_field_width` before -> (`FieldMeta`, `total_field_width` after). -/
+def parseField (d : FieldDecl) (total : Nat) : Except ParseError (FieldMeta × Nat) :=
+  match bitWidthAttr d.bits d.bytes with
+  | .error e => .error e
+  | .ok w0 =>
+    -- if let Some(skip) = pre_skip { total_field_width += skip; }
+    let total1 := total + d.preSkipBits
+    -- field_width: attribute, else the table keyed by the type's first token
+    match w0.orElse fun _ => autoWidth d.ty with
+    | none =>
+      -- bit_end = bit_start; "Field must have a width attribute" unless skipped
+      if d.skip then .ok (mkFieldMeta d total1 total1, total1 + d.postSkipBits)
+      else .error .fieldWidthRequired
+    | some w =>
+      let fm := mkFieldMeta d total1 (total1 + w)
+      -- Validation if we're not skipping this field; a skipped field does not advance total_field_width
+      if d.skip then .ok (fm, total1 + d.postSkipBits)
+      else if fm.bytesLen > 1 ∧ (fm.bitOffset > 0 ∨ w % 8 > 0) then .error .multibyteAlign
+      else if fm.bitsLen < 8 ∧ fm.bytesLen > 1 then .error .smallCrosses
+      else .ok (fm, total1 + w + d.postSkipBits)
+
+/-- The `for field in fields` loop of parse_struct; state = `total_field_width`. -/
 def parseFields : List FieldDecl → Nat → Except ParseError (List FieldMeta × Nat)
   | [], total => .ok ([], total)
   | d :: rest, total =>
-    match bitWidthAttr d.bits d.bytes with
+    match parseField d total with
     | .error e => .error e
-    | .ok w0 =>
-      let fieldWidth : Option Nat := w0.orElse fun _ => autoWidth d.ty
-      let preSkip : Option Nat :=
-        (d.preSkip.orElse fun _ => d.preSkipBytes.map (· * 8)).filter fun _ => !d.skip
-      let postSkip : Option Nat :=
-        (d.postSkip.orElse fun _ => d.postSkipBytes.map (· * 8)).filter fun _ => !d.skip
-      let total1 := total + preSkip.getD 0
-      let bitStart := total1
-      let bitEnd := match fieldWidth with
-        | some w => total1 + w
-        | none => total1
-      let byteStart := bitStart / 8
-      let byteEnd := (bitEnd + 7) / 8
-      let fm : FieldMeta :=
-        { ty := d.ty, codec := d.codec, bitStart := bitStart, bitEnd := bitEnd, byteStart := byteStart,
-          byteEnd := byteEnd, bitOffset := bitStart % 8, skip := d.skip }
-      let validated : Except ParseError Nat :=
-        if d.skip then .ok total1
-        else match fieldWidth with
-          | none => .error .fieldWidthRequired
-          | some w =>
-            if fm.bytesLen > 1 ∧ (fm.bitOffset > 0 ∨ w % 8 > 0) then .error .multibyteAlign
-            else if fm.bitsLen < 8 ∧ fm.bytesLen > 1 then .error .smallCrosses
-            else .ok (total1 + w)
-      match validated with
+    | .ok (fm, total') =>
+      match parseFields rest total' with
       | .error e => .error e
-      | .ok total2 =>
-        let total3 := total2 + postSkip.getD 0
-        match parseFields rest total3 with
-        | .error e => .error e
-        | .ok (ms, tot) => .ok (fm :: ms, tot)
+      | .ok (ms, tot) => .ok (fm :: ms, tot)
 
 /-- parse_struct.rs `StructMeta`. -/
 structure StructMeta where
@@ -469,13 +481,14 @@ inductive ReprTy where
   | u8 | i8 | u16 | i16 | u32 | i32 | u64 | i64 | u128 | i128 | usize | isize | missing
   deriving Repr, DecidableEq
 
-/-- generate_enum.rs `size_bytes` (`unreachable!("Invalid repr")` otherwise: the macro panics). -/
-def ReprTy.size : ReprTy → Option Nat
-  | .u8 | .i8 => some 1
-  | .u16 | .i16 => some 2
-  | .u32 | .i32 => some 4
-  | .u64 | .i64 => some 8
-  | _ => none
+def ReprTy.name : ReprTy → String
+  | .u8 => "u8" | .i8 => "i8" | .u16 => "u16" | .i16 => "i16" | .u32 => "u32" | .i32 => "i32"
+  | .u64 => "u64" | .i64 => "i64" | .u128 => "u128" | .i128 => "i128" | .usize => "usize" | .isize => "isize"
+  | .missing => ""
+
+/-- generate_enum.rs `size_bytes` (`unreachable!("Invalid repr")` otherwise: the macro panics); table re-read from the
+    macro source on every run. -/
+def ReprTy.size (r : ReprTy) : Option Nat := Gen.WireMacro.reprSizes.lookup r.name
 
 def ReprTy.signed : ReprTy → Bool
   | .i8 | .i16 | .i32 | .i64 | .i128 | .isize => true
@@ -519,15 +532,24 @@ structure EnumMeta where
   rustDiscs : List Int
   deriving Repr
 
+/-- `variant_discriminant` (parse_enum.rs:58-93): the literal (possibly negated) if written, else `discriminant_accum + 1`. -/
+def variantDiscriminant (disc : Option Int) (accum : Int) : Int :=
+  match disc with
+  | some d => d
+  | none => accum + Gen.WireMacro.implicitStep
+
+/-- `discriminant_accum` after a variant: `= variant_discriminant`, then (parse_enum.rs:141-153, if that assignment
+    exists) `= alternative` for each alternative in turn. -/
+def accumAfter (v : VariantDecl) (disc : Int) : Int :=
+  if Gen.WireMacro.alternativesAdvance then (v.alternatives.getLast?).getD disc else disc
+
 /-- The `for variant in e.variants` loop (parse_enum.rs:53-154).
     State: index of the variant, `discriminant_accum`, `catch_all`, `default_variant`. -/
 def parseVariants : List VariantDecl → Nat → Int → Option Nat → Option Nat →
     Except EnumParseError (List VariantMeta × Option Nat × Option Nat)
   | [], _, _, ca, df => .ok ([], ca, df)
   | v :: rest, idx, accum, ca, df =>
-    let disc : Int := match v.disc with
-      | some d => d
-      | none => accum + 1
+    let disc : Int := variantDiscriminant v.disc accum
     if v.catchAll ∧ v.alternatives ≠ [] then .error .catchAllAlternatives
     else if v.catchAll ∧ ca.isSome then .error .twoCatchAll
     else if v.default ∧ df.isSome then .error .twoDefault
@@ -537,8 +559,7 @@ def parseVariants : List VariantDecl → Nat → Int → Option Nat → Option N
       let record : VariantMeta := { name := idx, discriminant := disc, catchAll := v.catchAll }
       let alts : List VariantMeta :=
         v.alternatives.map fun a => { name := idx, discriminant := a, catchAll := false }
-      -- discriminant_accum = variant_discriminant; then = each alternative in turn
-      let accum' := (v.alternatives.getLast?).getD disc
+      let accum' := accumAfter v disc
       match parseVariants rest (idx + 1) accum' ca' df' with
       | .error e => .error e
       | .ok (ms, ca'', df'') => .ok (record :: alts ++ ms, ca'', df'')
@@ -554,7 +575,7 @@ def rustDiscsFrom : List VariantDecl → Int → List Int
 def parseEnum (e : EnumDecl) : Except EnumParseError EnumMeta :=
   if e.repr = .missing then .error .noRepr
   else if e.repr = .usize ∨ e.repr = .isize then .error .usizeRepr
-  else match parseVariants e.variants 0 0 none none with
+  else match parseVariants e.variants 0 Gen.WireMacro.accumInit none none with
     | .error err => .error err
     | .ok (ms, ca, df) =>
       .ok { repr := e.repr, variants := ms, catchAll := ca, default := df,
@@ -607,14 +628,18 @@ def enumRead (m : EnumMeta) (size : Nat) (buf : List Nat) : Out Val :=
         | some d => .ok (.unit d)
         | none => .err .invalidValue
 
-/-- Values of a derived enum: a declared unit variant, or the catch-all variant carrying a `repr` value. -/
+/-- `x` is a value of the repr type (`size` bytes, signed or not). -/
+def reprInRange (signed : Bool) (size : Nat) (x : Int) : Prop :=
+  if signed then -((256 ^ size : Nat) : Int) ≤ 2 * x ∧ 2 * x < ((256 ^ size : Nat) : Int)
+  else 0 ≤ x ∧ x < ((256 ^ size : Nat) : Int)
+
+/-- Values of a derived enum: a declared unit variant, or the catch-all variant carrying a `repr` value that is not one
+    of the declared discriminants/alternatives (such a payload reads back as the declared variant: not canonical). -/
 def enumValid (e : EnumDecl) (m : EnumMeta) (size : Nat) (v : Val) : Prop :=
   match v with
   | .unit idx => ∃ d, e.variants[idx]? = some d ∧ d.catchAll = false
   | .catchAll raw =>
-    m.catchAll.isSome ∧
-      (if m.repr.signed then -(256 ^ size : Nat) ≤ 2 * raw ∧ 2 * raw < (256 ^ size : Nat)
-       else 0 ≤ raw ∧ raw < (256 ^ size : Nat))
+    m.catchAll.isSome ∧ reprInRange m.repr.signed size raw ∧ matchReadArms m.variants raw = none
   | _ => False
 
 def enumCodecOfMeta (e : EnumDecl) (m : EnumMeta) (size : Nat) : Codec where
